@@ -31,6 +31,8 @@ pub struct Profile {
     pub w_io: u32,
     pub w_fault: u32,
     pub w_bpolicy: u32,
+    /// the network stalls inside whatever the broker sends next
+    pub w_gate: u32,
     /// percent of cancel-safe operations that get a cancel point
     pub cancel_pct: u32,
     /// allow cancelling QoS 0 publishes (documented as not cancel-safe)
@@ -101,6 +103,7 @@ impl Default for Profile {
             w_io: 2,
             w_fault: 2,
             w_bpolicy: 2,
+            w_gate: 0,
             cancel_pct: 12,
             cancel_qos0: false,
             hostile_io_pct: 60,
@@ -568,7 +571,7 @@ impl Gen {
             p.w_disconnect, p.w_drop, p.w_forget, p.w_into_inner,
             if held > 0 { p.w_release } else { 0 },
             p.w_bpublish, p.w_bstale, p.w_bpubrel, p.w_bclose, p.w_bdisc, p.w_braw, p.w_advance, p.w_io,
-            p.w_fault, p.w_bpolicy,
+            p.w_fault, p.w_bpolicy, p.w_gate,
         ];
         let pick = self.rng.weighted(&w);
         let rng = &mut self.rng;
@@ -651,12 +654,13 @@ impl Gen {
             19 => Step::Advance(*rng.pick(&[1u64, 1000, 1_000_000, 30_000_000])),
             20 => Step::Io { policy: Some(rand_policy(rng, true)), faults: vec![] },
             21 => Step::Io { policy: None, faults: vec![rand_fault(rng, cur.n_io + 20)] },
-            _ => Step::Broker(BrokerAct::Policy(BrokerPolicy {
+            22 => Step::Broker(BrokerAct::Policy(BrokerPolicy {
                 acks: *rng.pick(&p.ack_modes),
                 ping: *rng.pick(&p.ping_modes),
                 fail_pct: *rng.pick(&p.fail_pcts),
                 longform_pct: *rng.pick(&p.longform_pcts),
             })),
+            _ => Step::Broker(BrokerAct::Gate { after: *rng.pick(&[0usize, 1, 2, 3, 5, 8, 13, 40]), blocks: 1 + rng.below(2) as u8 }),
         }
     }
 }
